@@ -83,7 +83,7 @@ def timetable_checks(specs, durs, starts, perm, scope, tol=0.0, cycles=None, con
             commute = bool(perm) and sc.truly_commute(a, b)
             same_cycle = i in where and where.get(i) == where.get(j)
             if not sc.cons_has_qubit(cons):
-                if not commute and not (scope == "covered" and declared and (sc.self_commuting_names() is None or sc.len_bound() is None)) \
+                if not commute and not (scope == "covered" and declared and sc.tree_unrepaired()) \
                         and starts[j] < starts[i] + durs[i] - tol:
                     return (f"instruction {j} ({b[0]} {b[1]} {b[2]}) starts at {starts[j]} before the earlier instruction {i} "
                             f"({a[0]} {a[1]} {a[2]}; start {starts[i]}, duration {durs[i]}), with which it does not commute, "
@@ -92,7 +92,7 @@ def timetable_checks(specs, durs, starts, perm, scope, tol=0.0, cycles=None, con
             if same_cycle and overlap(i, j):
                 return (f"instructions {i} and {j} are in one cycle, share qubit(s) {sorted(used[i] & used[j])} and overlap")
             if not commute:
-                if scope == "covered" and declared and (sc.self_commuting_names() is None or sc.len_bound() is None):
+                if scope == "covered" and declared and sc.tree_unrepaired():
                     continue        # C05 known classes, only on a tree WITHOUT the repairs: declared commuting although the
                                     # matrices do not commute (same-name non-self-commuting families / targets-only TOFFOLI)
                 if starts[j] < starts[i] + durs[i] - tol:
@@ -433,6 +433,25 @@ class C11(PropertyCheck):
         batch = [(specs_from(seq), [d * sc.DEN for d in durs], m, p, k % 5 == 0)
                  for k, (seq, durs) in enumerate(shapes) for m, p in settings]
         self._flush(ctx, res, batch, "interleaved")
+        # the same Instruction object listed several times (only on a tree that copies every entry separately; otherwise the
+        # code raises TypeError -- finding, fixes/C11-2.patch -- and nothing is compared)
+        if sc.alias_ok():
+            wl = list(self._alias_witnesses())
+            lines = [sc.model_line(w["method"], True, [fields_of(x) + (d * sc.DEN,) for x, d in zip(w["ins"], w["durs"])]) for w in wl]
+            for w, o in zip(wl, ctx.driver("drv_sched").run(lines)):
+                st, starts = sc.impl_schedule(sc.aliased_instructions(w["ins"], [d * sc.DEN for d in w["durs"]], sc.DEN),
+                                              w["method"], True)
+                inp = {"ins": [[g[0], g[1], g[2], d] for g, d in zip(w["ins"], w["durs"])], "method": w["method"], "alias": True}
+                res.case(inp, nontrivial=True, tags=["aliased-instructions"])
+                m = sc.parse_model(o)
+                if st != "ok" or m["status"] != "ok":
+                    if st != m["status"]:
+                        res.disagree(inp, m["status"], st, "verdict (same Instruction object listed several times)", w)
+                elif m["starts"] != [sc.exact_num(x) for x in starts]:
+                    res.disagree(inp, m["starts"], [sc.exact_num(x) for x in starts], "start times (aliased instruction list)", w)
+        else:
+            res.notes.append("lists containing the same Instruction object several times are not compared: this tree copies the "
+                             "list as a whole and raises TypeError (finding C11-2)")
         self._cross_object(ctx, res, 1200 if ctx.thorough else 200)
         res.notes.append("cross-object histories (an earlier Scheduler's public attributes edited in place, then a fresh Scheduler; tag "
                          "cross-object); container forms of targets / controls: lists and numpy integers in the correspondence, "
@@ -580,7 +599,13 @@ class C11(PropertyCheck):
         _, Instruction, _, _, _ = sc._mods()
         try:
             form = w.get("form", "list")
-            ins = [Instruction(gate_obj(s) if form == "list" else sc.make_gate(s, form), duration=d) for s, d in zip(specs, durs)]
+            if w.get("alias"):
+                if w.get("scope") == "covered" and not sc.alias_ok():
+                    return False, ("not evaluated: the same Instruction object listed several times raises TypeError on a tree whose "
+                                   "InstructionsGraph copies the list as a whole (finding repaired by fixes/C11-2.patch)")
+                ins = sc.aliased_instructions(specs, w["durs"], den, (lambda x: sc.make_gate(x, form)))
+            else:
+                ins = [Instruction(gate_obj(s) if form == "list" else sc.make_gate(s, form), duration=d) for s, d in zip(specs, durs)]
         except Exception as e:
             return True, f"Instruction() raised {type(e).__name__}: {e}"
         log = None
@@ -646,6 +671,12 @@ class C11(PropertyCheck):
             return {"kind": "pulse", "ins": specs_from(seq), "durs": list(durs), "den": 1, "shuf": None, "cycles": False}
         if rng is None:
             for seq, durs in self.CTOR_LISTS:
+                # attribute edits on ONE object: constructed without permutation / with the other method, then switched
+                for m in ("ASAP", "ALAP"):
+                    for what in ("perm:1", "method:" + ("ALAP" if m == "ASAP" else "ASAP"), ["assign", ["q"]], ["assign", None]):
+                        yield {"steps": [{"op": "new", "id": 0, "method": m, "perm": what != "perm:1", "cons": None},
+                                         {"op": "mutate", "id": 0, "what": what},
+                                         {"op": "call", "id": 0, "call": call(seq, durs)}], "scope": "covered"}
                 for what in ("clear", "pop", "append_a", "method:ALAP", "perm:0"):
                     for m in ("ASAP", "ALAP"):
                         yield {"steps": [{"op": "new", "id": 0, "method": m, "perm": True, "cons": None},
@@ -672,6 +703,21 @@ class C11(PropertyCheck):
                 for m in ("ASAP", "ALAP"):
                     yield {"ins": specs_from(seq), "durs": list(durs), "den": 1, "method": m, "perm": True, "shuf": None,
                            "scope": "covered", "form": form}
+
+    ALIAS_LISTS = [([0, 0], [2]), ([0, 0, 0], [2]), ([0, 1, 0], [2, 1]), ([1, 0, 0, 1], [2, 1]), ([0, 1, 1, 0, 2], [1, 3, 2]),
+                   ([2, 2, 0, 2], [1, 1, 2])]
+
+    def _alias_witnesses(self):
+        """lists in which the SAME Instruction object occurs several times ([inst] * k, [a, b, a], ...)"""
+        pool = [("X", [0], []), ("CNOT", [1], [0]), ("RZ", [1], []), ("SNOT", [0], []), ("CZ", [2], [0])]
+        for idx, durs in self.ALIAS_LISTS:
+            for shift in range(len(pool)):
+                seq = [pool[(i + shift) % len(pool)] for i in idx]
+                base = specs_from([pool[(i + shift) % len(pool)] for i in range(len(durs))])
+                specs = [base[i] for i in idx]           # equal entries get equal parameters: the same object
+                for m in ("ASAP", "ALAP"):
+                    yield {"ins": specs, "durs": [durs[i] for i in idx], "den": 1, "method": m, "perm": True, "shuf": None,
+                           "scope": "covered", "alias": True}
 
     def _constructor_witnesses(self):
         """every kind of constructor argument: all `method` values x all constraint lists on a few small timed lists"""
@@ -702,6 +748,7 @@ class C11(PropertyCheck):
                            "scope": "covered"}
 
     def _systematic(self):
+        yield from self._alias_witnesses()
         yield from self._form_witnesses()
         yield from self._cross_object_witnesses()
         yield from self._nontransitive_witnesses()
@@ -738,7 +785,7 @@ class C11(PropertyCheck):
     def oracle_always(self, ctx):
         # scope "covered": commutation decided by the matrices; only the two recorded known-finding classes are skipped
         # (see timetable_checks); the other clauses are evaluated for every list.
-        for w in itertools.chain(self._form_witnesses(), self._cross_object_witnesses(),
+        for w in itertools.chain(self._alias_witnesses(), self._form_witnesses(), self._cross_object_witnesses(),
                                  self._cross_object_witnesses(ctx.rng, 200)):
             f, d = self.oracle_replay(ctx, w)
             if f:
